@@ -2,7 +2,8 @@
 
 A Python-level signal handler cannot interrupt a single long C-level call (e.g. a catastrophically backtracking regular
 expression inside the lexer), so the watchdog must live in another process.  Protocol: request = 8 hex digits length + payload
-(UTF-8, first character is a flag: 'R' render accepted inputs, 'P' parse only); reply = one JSON line.
+(first byte is a flag: 'R' UTF-8 text, render accepted inputs; 'P' UTF-8 text, parse only; 'F' raw BYTES written to a file that is parsed
+through parse(path) and rendered; 'I' raw bytes written to a file that a valid main file imports); reply = one JSON line.
 """
 import json
 import os
@@ -27,7 +28,7 @@ def main():
     from vlib.monitors import contracts
     contracts.install()
     import bitproto.errors as errors
-    from bitproto.parser import parse_string
+    from bitproto.parser import parse, parse_string
     from bitproto.renderer import render
 
     anchor = os.path.join(workdir, "fuzz.bitproto")
@@ -39,11 +40,24 @@ def main():
         head = inp.read(8)
         if len(head) < 8:
             return
-        data = inp.read(int(head, 16)).decode("utf-8")
-        flag, text = data[0], data[1:]
+        raw = inp.read(int(head, 16))
+        flag, body = chr(raw[0]), raw[1:]
         rep = {"status": "?", "problems": [], "renders": 0, "renders_opt": 0}
+        if flag in "FI":
+            bpath = os.path.join(workdir, "bytesmain.bitproto" if flag == "F" else "byteslib.bitproto")
+            with open(bpath, "wb") as fh:
+                fh.write(body)
+            if flag == "I":
+                bpath = os.path.join(workdir, "bytesimporter.bitproto")
+                with open(bpath, "w") as fh:
+                    fh.write('proto importer\nimport b "byteslib.bitproto"\nmessage M { bool a = 1 }\n')
+            do_parse = lambda trad=False: parse(bpath, traditional_mode=trad)
+            flag = "R"
+        else:
+            text = body.decode("utf-8", "surrogatepass")
+            do_parse = lambda trad=False: parse_string(text, filepath=anchor, traditional_mode=trad)
         try:
-            proto = parse_string(text, filepath=anchor)
+            proto = do_parse()
             rep["status"] = "accepted"
         except errors.ParserError as e:
             rep["status"], rep["cls"] = "rejected", type(e).__name__
@@ -67,7 +81,7 @@ def main():
                     tb = traceback.format_exc()
                     rep["problems"].append({"key": f"render-internal:{lang}:" + classify(e, tb), "what": f"render {lang} of an accepted schema escaped with {type(e).__name__}: {str(e)[:200]}", "traceback": tb[-1500:]})
             try:
-                tp = parse_string(text, filepath=anchor, traditional_mode=True)
+                tp = do_parse(True)
             except BaseException:
                 tp = None
             if tp is not None:
